@@ -44,6 +44,11 @@ impl Ball {
             let mut vtx = self.to_polyline(nsubdivs);
             vtx.iter_mut()
                 .for_each(|pt| pt.coords = pt.coords.component_mul(scale));
+            // A mirror image turns the counter-clockwise polyline clockwise:
+            // restore the orientation `from_convex_polyline` expects.
+            if scale.x * scale.y < 0.0 {
+                vtx.reverse();
+            }
             Some(Either::Right(super::ConvexPolygon::from_convex_polyline(
                 vtx,
             )?))
@@ -68,9 +73,14 @@ impl Ball {
     ) -> Option<Either<Self, super::ConvexPolyhedron>> {
         if scale.x != scale.y || scale.x != scale.z || scale.y != scale.z {
             // The scaled shape isn’t a ball.
-            let (mut vtx, idx) = self.to_trimesh(nsubdivs, nsubdivs);
+            let (mut vtx, mut idx) = self.to_trimesh(nsubdivs, nsubdivs);
             vtx.iter_mut()
                 .for_each(|pt| pt.coords = pt.coords.component_mul(scale));
+            // A mirror image (odd number of negative factors) turns the outward
+            // orientation of the triangles inwards: restore it.
+            if scale.x * scale.y * scale.z < 0.0 {
+                idx.iter_mut().for_each(|t| t.swap(0, 1));
+            }
             Some(Either::Right(super::ConvexPolyhedron::from_convex_mesh(
                 vtx, &idx,
             )?))
